@@ -60,7 +60,7 @@ def _pairs_unrollable(st):
             and all(isinstance(t, ast.Name) for t in st.target.elts)):
         return False
     it = st.iter
-    if not (isinstance(it, (ast.Tuple, ast.List)) and 1 <= len(it.elts) <= 6):
+    if not (isinstance(it, (ast.Tuple, ast.List)) and 1 <= len(it.elts) <= 24):
         return False
     if not all(isinstance(e, (ast.Tuple, ast.List)) and len(e.elts) == len(st.target.elts) and all(_simple(v) for v in e.elts) for e in it.elts):
         return False
@@ -415,6 +415,19 @@ class Normaliser(ast.NodeTransformer):
                                                         value=copy.deepcopy(v) if again else ast.Name(id=first, ctx=ast.Load()),
                                                         lineno=st.lineno), st))
             return out
+        # `x = o.a = o[k] = v`: the value is computed once and assigned left to right; with a plain name in front this is `x = v; o.a = x; o[k] = x`
+        # (as long as the later targets do not read or bind x and no target is a starred / tuple pattern)
+        if len(st.targets) >= 2 and isinstance(st.targets[0], ast.Name) and all(isinstance(x, (ast.Name, ast.Attribute, ast.Subscript)) for x in st.targets[1:]):
+            first = st.targets[0].id
+            later_names = [y.id for x in st.targets[1:] for y in ast.walk(x) if isinstance(y, ast.Name)]
+            if first not in later_names:
+                out = []
+                r = self.visit(ast.copy_location(ast.Assign(targets=[ast.Name(id=first, ctx=ast.Store())], value=v, lineno=st.lineno), st))
+                out.extend(r if isinstance(r, list) else [r])
+                for x in st.targets[1:]:
+                    r = self.visit(ast.copy_location(ast.Assign(targets=[x], value=ast.Name(id=first, ctx=ast.Load()), lineno=st.lineno), st))
+                    out.extend(r if isinstance(r, list) else [r])
+                return out
         pre = self._hoisted(st, "value") if all(isinstance(t, ast.Name) for t in st.targets) else []
         st = self.generic_visit(st)
         return ([self.visit(a) for a in pre] + [st]) if pre else st
@@ -636,6 +649,15 @@ class Normaliser(ast.NodeTransformer):
 def _literal_like(v, depth=0):
     if isinstance(v, ast.Constant):
         return True
+    # a selector built from literals: attrgetter("name", "type"), itemgetter(0), lambda x: x.name  (no free names but globals of builtins)
+    if depth == 0 and isinstance(v, ast.Call) and not v.keywords and v.args and all(isinstance(a, ast.Constant) for a in v.args):
+        fn = v.func.attr if isinstance(v.func, ast.Attribute) else v.func.id if isinstance(v.func, ast.Name) else ""
+        if fn in ("attrgetter", "itemgetter"):
+            return True
+    if depth == 0 and isinstance(v, ast.Lambda) and not v.args.defaults and not v.args.kw_defaults and not v.args.vararg and not v.args.kwarg:
+        params = set(a.arg for a in v.args.posonlyargs + v.args.args + v.args.kwonlyargs)
+        if all(y.id in params for y in ast.walk(v.body) if isinstance(y, ast.Name)):
+            return True
     if isinstance(v, (ast.Tuple, ast.List)) and depth < 2:
         return all(_literal_like(e, depth + 1) or _simple(e) for e in v.elts)
     return False
